@@ -250,6 +250,9 @@ for FullSync<'a, ItemType, OgreAllocatorType, BUFFER_SIZE, MAX_STREAMS> {
 
     #[inline(always)]
     fn drop_resources(&self, stream_id: u32) {
+        // discards the events the leaving listener left unconsumed: the queue of `stream_id` will be reused by whatever
+        // future listener gets this id, which must not see events sent before it existed (this also releases their payloads)
+        while self.consume(stream_id).is_some() {}
         self.streams_manager.report_stream_dropped(stream_id);
     }
 }
